@@ -103,6 +103,9 @@ fn is_html_integration_point_in_svg(tag_name: LocalNameHash) -> bool {
 pub(crate) struct TreeBuilderSimulator {
     ns_stack: Vec<Namespace>,
     current_ns: Namespace,
+    /// For each HTML namespace entered through an integration point: the name of that
+    /// integration point element, and how many HTML elements of the same name are open in it.
+    integration_points: Vec<(LocalNameHash, usize)>,
     /// A self-closing `<svg/>` or `<math/>` is in the foreign namespace itself, but has no
     /// content: its namespace is left again before the next tag is looked at.
     leave_ns_before_next_tag: bool,
@@ -117,6 +120,7 @@ impl TreeBuilderSimulator {
         let mut simulator = Self {
             ns_stack: Vec::with_capacity(DEFAULT_NS_STACK_CAPACITY),
             current_ns: Namespace::Html,
+            integration_points: Vec::new(),
             leave_ns_before_next_tag: false,
             ambiguity_guard: AmbiguityGuard::default(),
             strict,
@@ -144,6 +148,14 @@ impl TreeBuilderSimulator {
         } else if self.current_ns != Namespace::Html {
             self.get_feedback_for_start_tag_in_foreign_content(tag_name)
         } else {
+            // NOTE: an HTML element with the name of the integration point it is in (e.g.
+            // `<title>` in `<svg><title>`) has its own end tag.
+            if let Some((name, nested_count)) = self.integration_points.last_mut() {
+                if !tag_name.is_empty() && *name == tag_name {
+                    *nested_count += 1;
+                }
+            }
+
             get_text_type_adjustment(tag_name)
         })
     }
@@ -252,12 +264,25 @@ impl TreeBuilderSimulator {
         if prev_ns == Namespace::MathML && is_text_integration_point_in_math_ml(tag_name)
             || prev_ns == Namespace::Svg && is_html_integration_point_in_svg(tag_name)
         {
-            self.leave_ns()
+            // NOTE: only the end tag of the integration point that has been entered leaves it
+            // (`</title>` of an HTML `<title>` inside `<foreignObject>` doesn't).
+            match self.integration_points.last_mut() {
+                Some((name, _)) if *name != tag_name => TreeBuilderFeedback::None,
+                Some((_, nested_count)) if *nested_count > 0 => {
+                    *nested_count -= 1;
+                    TreeBuilderFeedback::None
+                }
+                _ => {
+                    self.integration_points.pop();
+                    self.leave_ns()
+                }
+            }
         } else if tag_name.is_empty() && prev_ns == Namespace::MathML {
             // NOTE: empty tag name hash - possibly <annotation-xml> case
             request_lexeme(|this, lexeme| {
                 expect_tag!(lexeme, EndTag { name, .. } => {
                     if eq_case_insensitive(&lexeme.part(name), b"annotation-xml") {
+                        this.integration_points.pop();
                         this.leave_ns()
                     } else {
                         TreeBuilderFeedback::None
@@ -278,11 +303,12 @@ impl TreeBuilderSimulator {
         }
 
         if self.is_integration_point_enter(tag_name) {
-            return request_lexeme(|this, lexeme| {
+            return request_lexeme(move |this, lexeme| {
                 expect_tag!(lexeme, StartTag { self_closing, .. } => {
                     if self_closing {
                         TreeBuilderFeedback::None
                     } else {
+                        this.integration_points.push((tag_name, 0));
                         this.enter_ns(Namespace::Html)
                     }
                 })
@@ -331,6 +357,7 @@ impl TreeBuilderSimulator {
                                 && (eq_case_insensitive(&value, b"text/html")
                                     || eq_case_insensitive(&value, b"application/xhtml+xml"))
                             {
+                                this.integration_points.push((LocalNameHash::default(), 0));
                                 return this.enter_ns(Namespace::Html);
                             }
                         }
